@@ -9,6 +9,8 @@ package raft
 // ---------------------------------------------------------------------------
 // Ghost models and assumed interface contracts (trusted base)
 
+//@ addressable logFuture.log
+
 //@ model LogStore { has map[uint64]bool; ent map[uint64]Log; first uint64; last uint64 }
 
 //@ interface LogStore.GetLog(index, log)
@@ -514,21 +516,24 @@ package raft
 //@ func (r *Raft) processLogs
 //@   requires nonnil: r != nil && r.logs != nil && r.logger != nil && typeis(r.conf.v, Config)
 //@   requires only_committed: index <= r.commitIndex
-//@   requires no_futures: futures == nil
+//@   requires futures_by_index: forall i uint64 :: dom(futures, i) ==> futures[i] != nil && futures[i].log.Index == i
 //@   requires index_range: index < MaxInt63
 //@   modifies r.lastApplied, sent(r.fsmMutateCh), allof("H.logFuture."), allof("CH.sent.error"), allof("CH.last.error"), allof("CH.closed"), allof("CH.sent.interface"), allof("CH.last.interface")
 //@   ensures  applied: r.lastApplied == max(old(r.lastApplied), index)
 //@   ensures  old_index_sends_nothing: index <= old(r.lastApplied) ==> sent(r.fsmMutateCh) == old(sent(r.fsmMutateCh))
 //@   ensures  no_skip: forall i uint64 :: old(r.lastApplied) < i && i <= index && !dom(futures, i) ==> r.logs.has[i]
+//@   ensures  futures_map_untouched: forall i uint64 :: dom(futures, i) == old(dom(futures, i))
 //@   at call (*Raft).processLogs$1#1 assert batch_in_order: (forall x int, y int :: 0 <= x && x < y && y < len(batch) ==> batch[x].log.Index < batch[y].log.Index) &&
 //@              (forall x int :: 0 <= x && x < len(batch) ==> batch[x] != nil && batch[x].log != nil && lastApplied < batch[x].log.Index && batch[x].log.Index <= index)
 //@   at call (*Raft).processLogs$1#2 assert batch_in_order: (forall x int, y int :: 0 <= x && x < y && y < len(batch) ==> batch[x].log.Index < batch[y].log.Index) &&
 //@              (forall x int :: 0 <= x && x < len(batch) ==> batch[x] != nil && batch[x].log != nil && lastApplied < batch[x].log.Index && batch[x].log.Index <= index)
 //@   loop 1 invariant progress: lastApplied < idx && idx <= index + 1 && r.lastApplied == old(r.lastApplied)
 //@   loop 1 invariant seen: forall i uint64 :: lastApplied < i && i < idx && !dom(futures, i) ==> r.logs.has[i]
-//@   loop 1 invariant batch_sorted: (forall x int, y int :: 0 <= x && x < y && y < len(batch) ==> batch[x].log.Index < batch[y].log.Index) &&
-//@              (forall x int :: 0 <= x && x < len(batch) ==> batch[x] != nil && batch[x].log != nil && lastApplied < batch[x].log.Index && batch[x].log.Index < idx)
+//@   loop 1 invariant batch_sorted: forall x int, y int :: 0 <= x && x < y && y < len(batch) ==> batch[x].log.Index < batch[y].log.Index
+//@   loop 1 invariant batch_nonnil: forall x int :: 0 <= x && x < len(batch) ==> batch[x] != nil && batch[x].log != nil
+//@   loop 1 invariant batch_range: forall x int :: 0 <= x && x < len(batch) ==> lastApplied < batch[x].log.Index && batch[x].log.Index < idx
 //@   loop 1 invariant batch_fresh: isfresh(batch)
+//@   loop 1 invariant futures_ok: forall i uint64 :: dom(futures, i) ==> futures[i] != nil && futures[i].log.Index == i
 
 //@ spec func aeResp(rpc RPC) *AppendEntriesResponse = cast(lastsent(rpc.RespChan).Response, *AppendEntriesResponse)
 //@ spec func wfAppend(a *AppendEntriesRequest) bool =
@@ -705,3 +710,27 @@ package raft
 //@   ensures  handshake: isResp(rpc).Success ==>
 //@              (req.LastLogIndex == lastEntryIndex(r) && req.LastLogTerm == lastEntryTerm(r)) ||
 //@              (r.logs.has[req.LastLogIndex] && r.logs.ent[req.LastLogIndex].Term == req.LastLogTerm)
+
+// ---------------------------------------------------------------------------
+// Leader append (C04 leader side, C05 self-match, C03 store-before-ack, C08 index assignment)
+
+//@ func (r *Raft) dispatchLogs
+//@   requires nonnil: r != nil && r.logs != nil && r.logger != nil && r.leaderState.commitment != nil && r.leaderState.inflight != nil && typeis(r.conf.v, Config)
+//@   requires futures_valid: forall k int :: 0 <= k && k < len(applyLogs) ==> applyLogs[k] != nil
+//@   requires futures_distinct: forall a int, b int :: 0 <= a && a < b && b < len(applyLogs) ==> applyLogs[a] != applyLogs[b]
+//@   requires index_range: r.lastLogIndex + len(applyLogs) < MaxInt63 && r.lastSnapshotIndex + len(applyLogs) < MaxInt63
+//@   ensures  appends_at_tail_in_own_term: forall k int :: 0 <= k && k < len(applyLogs) ==>
+//@              applyLogs[k].log.Index == old(lastEntryIndex(r)) + 1 + k && applyLogs[k].log.Term == r.currentTerm
+//@   ensures  tail_moves_only_after_store: r.lastLogIndex != old(r.lastLogIndex) ==>
+//@              r.lastLogIndex == old(lastEntryIndex(r)) + len(applyLogs) && r.lastLogTerm == r.currentTerm &&
+//@              (forall k int :: 0 <= k && k < len(applyLogs) ==> r.logs.has[applyLogs[k].log.Index] && r.logs.ent[applyLogs[k].log.Index].Term == r.currentTerm)
+//@   ensures  nothing_deleted: forall x uint64 :: old(r.logs.has[x]) ==> r.logs.has[x]
+//@   ensures  term_untouched: r.currentTerm == old(r.currentTerm)
+//@   at call (*commitment).match#1 assert stored_first: arg2 == old(lastEntryIndex(r)) + len(applyLogs) &&
+//@              (forall k int :: 0 <= k && k < len(applyLogs) ==> r.logs.has[applyLogs[k].log.Index])
+//@   loop 1 invariant assigned: lastIndex == old(lastEntryIndex(r)) + #i && len(logs) == len(applyLogs) && isfresh(logs) &&
+//@              (forall j int :: 0 <= j && j < #i ==> logs[j] == addr(applyLogs[j].log) && applyLogs[j].log.Index == old(lastEntryIndex(r)) + 1 + j && applyLogs[j].log.Term == term)
+//@   loop 1 invariant state: r.lastLogIndex == old(r.lastLogIndex) && r.lastLogTerm == old(r.lastLogTerm) && r.currentTerm == old(r.currentTerm) && term == r.currentTerm &&
+//@              r.logs == old(r.logs) && r.logs.has == old(r.logs.has) && r.logs.ent == old(r.logs.ent) && r.leaderState.commitment == old(r.leaderState.commitment) &&
+//@              r.leaderState.commitment.matchIndexes == old(r.leaderState.commitment.matchIndexes) && r.localID == old(r.localID) &&
+//@              (forall id ServerID :: r.leaderState.commitment.matchIndexes[id] == old(r.leaderState.commitment.matchIndexes[id]))
